@@ -8,71 +8,6 @@ import (
 	"hcverif/verif"
 )
 
-// reference TLV8 item(s): fragments of at most 255 bytes, none empty
-func kkRef(tag byte, v []byte) []byte {
-	out := []byte{}
-	for len(v) > 0 {
-		n := len(v)
-		if n > 255 {
-			n = 255
-		}
-		out = append(out, tag, byte(n))
-		out = append(out, v[:n]...)
-		v = v[n:]
-	}
-	return out
-}
-
-// kkCanon is a conformant peer's view of a wire: complete items, adjacent items of one type
-// joined into one value, written back in the strict reference form.
-func kkCanon(wire []byte) ([]byte, bool) {
-	type item struct {
-		tag byte
-		val []byte
-	}
-	var items []item
-	for len(wire) > 0 {
-		if len(wire) < 2 || len(wire) < 2+int(wire[1]) {
-			return nil, false
-		}
-		n := int(wire[1])
-		if k := len(items); k > 0 && items[k-1].tag == wire[0] && (n > 0 || len(items[k-1].val) > 0) {
-			items[k-1].val = append(items[k-1].val, wire[2:2+n]...)
-		} else {
-			items = append(items, item{wire[0], append([]byte{}, wire[2:2+n]...)})
-		}
-		wire = wire[2+n:]
-	}
-	out := []byte{}
-	for _, it := range items {
-		if len(it.val) == 0 {
-			out = append(out, it.tag, 0) // an empty item (list separator) stays
-		}
-		out = append(out, kkRef(it.tag, it.val)...)
-	}
-	return out, true
-}
-
-// kkWire: the bytes are what a conformant peer expects (alarm when its view differs from
-// the reference), and byte-identical to the reference (internal expectation: an equivalent
-// fragmentation is not a violation).
-func kkWire(enc, ref []byte, label string) bool {
-	verif.Assert(verif.Eq(enc, ref), "inv:byte-identical:"+label)
-	ce, ok1 := kkCanon(enc)
-	cr, ok2 := kkCanon(ref)
-	ok := ok1 && ok2 && verif.Eq(ce, cr)
-	verif.Assert(ok, label)
-	return ok
-}
-
-func kkLE(x uint64, n int) []byte {
-	b := make([]byte, n)
-	for i := range b {
-		b[i] = byte(x >> (8 * uint(i)))
-	}
-	return b
-}
-
 // (K) every writer kernel emits the reference little-endian encoding of its full-width
 // symbolic value and the matching reader kernel returns the value.
 func Harness_C17_q_kernels_roundtrip() {
